@@ -33,7 +33,7 @@ CLAIMS = {
         "error, close) over offsets and lengths only; TLC checks Framing (delivered PDUs = complete PDUs in the consumed prefix, hence chunking-independent), "
         "InsideBuffer, InOrder, whole-requests-per-connection and ClosedMeansClosed for every split/partial-send/fault position with small constants; the real TCP "
         "async client runs on scripted sockets with the real 65539-byte constants and every recorded system call is validated by TLC against the same actions.",
-   note="The blocking client is also driven with partial sends (first send accepts k bytes for every k; 1- and 7-byte sends). Bounds: MC MAX=3 (quick) / MAX=4 (thorough), <=3 PDUs, 2 requests, 2 connections; traces: 60/600 scenarios with PDUs 2..65539 bytes. Blocking TCP client not covered here. Two defects found and fixed (F-C14-1, F-C14-2).",
+   note="Send timeouts are part of the stream model (ExpireUnwritten, ExpirePartial): half of the schedules run with a 3 s send timeout and a moving clock, and the directed family has the faults timeout / timeout-unwritable; defect F-C14-3 fixed. The blocking client is also driven with partial sends (first send accepts k bytes for every k; 1- and 7-byte sends). Bounds: MC MAX=3 (quick) / MAX=4 (thorough), <=3 PDUs, 2 requests, 2 connections; traces: 60/600 scenarios with PDUs 2..65539 bytes. Blocking TCP client not covered here. Two defects found and fixed (F-C14-1, F-C14-2).",
    technique="TLC model checking + TLC trace validation of every wrapped system call of the real TCP async client"),
  "C16": dict(level="model_checking", design_ref="DESIGN.md 4/C16",
    text="TreeBuilder.tla models the binary-counter forest of KSI_TreeBuilder (carry on add, pre-check and refusal, close, chain extraction) with nodes "
